@@ -372,6 +372,59 @@ func (p *PipeServer) OpenTunnel(target string, cfg *tls.Config) (*Tunnel, *Resp)
 	return &Tunnel{conn: c, tls: tc, br: bufio.NewReader(tc)}, r
 }
 
+// OpenTunnelEager is OpenTunnel for a client that does not wait for the 200 before it goes on: the
+// CONNECT request and the TLS ClientHello leave in one write (a client is free to do that, the bytes
+// after the request's blank line belong to the tunnel). wait bounds the handshake.
+func (p *PipeServer) OpenTunnelEager(target string, cfg *tls.Config, wait time.Duration) (*Tunnel, *Resp) {
+	c := p.Dial()
+	c.SetDeadline(time.Now().Add(wait))
+	ec := &eagerConn{Conn: c, br: bufio.NewReader(c), head: []byte("CONNECT " + target + " HTTP/1.1\r\nHost: " + target + "\r\n\r\n")}
+	tc := tls.Client(ec, cfg)
+	if err := tc.Handshake(); err != nil {
+		c.Close()
+		r := &Resp{Header: http.Header{}, Status: ec.status, Err: "tls handshake: " + err.Error()}
+		return nil, r
+	}
+	c.SetDeadline(time.Now().Add(ioDeadline))
+	return &Tunnel{conn: c, tls: tc, br: bufio.NewReader(tc)}, &Resp{Header: http.Header{}, Status: ec.status}
+}
+
+// eagerConn prepends the CONNECT request to the first write and takes the proxy's answer to it off
+// the front of what is read.
+type eagerConn struct {
+	net.Conn
+	br     *bufio.Reader
+	head   []byte
+	sent   bool
+	got    bool
+	status int
+}
+
+func (e *eagerConn) Write(p []byte) (int, error) {
+	if !e.sent {
+		e.sent = true
+		if _, err := e.Conn.Write(append(append([]byte{}, e.head...), p...)); err != nil {
+			return 0, err
+		}
+		return len(p), nil
+	}
+	return e.Conn.Write(p)
+}
+
+func (e *eagerConn) Read(p []byte) (int, error) {
+	if !e.got {
+		resp, err := http.ReadResponse(e.br, &http.Request{Method: "CONNECT"})
+		if err != nil {
+			return 0, err
+		}
+		e.got, e.status = true, resp.StatusCode
+		if resp.StatusCode != 200 {
+			return 0, io.ErrUnexpectedEOF
+		}
+	}
+	return e.br.Read(p)
+}
+
 // Do sends one raw request through the tunnel and reads its response.
 func (t *Tunnel) Do(raw string) *Resp { return Exchange(t.tls, t.br, raw) }
 
